@@ -95,6 +95,8 @@ type interpreter struct {
 	fnNames            map[*ssa.Function]string
 	mainPkg            *ssa.Package
 	onceActive         map[*value]bool
+	lazyDone           map[*ssa.Global]bool
+	pools              map[*value][]value
 	callStack          []*ssa.Function
 	panicStack         []*ssa.Function
 }
@@ -159,9 +161,11 @@ func (fr *frame) get(key ssa.Value) value {
 	case *ssa.Global:
 		if r, ok := fr.i.globals[key]; ok {
 			if fr.i.ex != nil && key.Pkg != nil && key.Pkg.Pkg != nil && !fr.i.initAllow[key.Pkg.Pkg.Path()] {
-				// a global of a package whose initialiser was skipped: its value is the
-				// zero value, which may differ from the real program's
-				fr.i.ex.UninitGlobals[key.Pkg.Pkg.Path()+"."+key.Name()]++
+				// a global of a package whose initialiser was skipped: compute it from the
+				// straight-line slice of that initialiser, or report the read
+				if !fr.i.lazyInitGlobal(key) {
+					fr.i.ex.UninitGlobals[key.Pkg.Pkg.Path()+"."+key.Name()]++
+				}
 			}
 			return r
 		}
